@@ -7,7 +7,8 @@ Model of `poulpy-ckks` (pinned tree) at the level of **shapes, metadata and outc
 the panic of every leveled operation.  The numeric data path is *not* modelled here (C02/C05/C08);
 what is recorded of it is which core entry point is reached with which shape parameters, so that
 the entry assertions of `poulpy-core/src/operations/glwe.rs` and every unchecked `usize`
-subtraction can be evaluated (`tensorCheck`, `squareCheck`, `plainCheck`, `constCheck`, `usub`).
+subtraction can be evaluated (`tensorCheck`, `squareCheck`, `plainCheck`, `constCheck`, `usub`).  The model follows the tree *with*
+the repairs of docs/fixes/ applied (01–07).
 
 Rust → Lean
 * `CKKSMeta`, `effective_k`, `min_k`                      → `Meta`, `Meta.effK`, `Meta.minK`
@@ -100,31 +101,25 @@ deriving Repr, DecidableEq
 
 /-- panic sites; `Panic.cls` maps them to the wire classes -/
 inductive Panic where
-  /-- `glwe_tensor_apply`: `assert_eq!(a_effective_k.div_ceil(base2k), a.size())` -/
-  | tensorCompactA
-  | tensorCompactB
-  /-- `glwe_tensor_square_apply`: same assertion (glwe.rs:632) -/
-  | squareCompact
-  /-- `glwe_mul_plain[_assign]`: compactness assertion on the ciphertext operand -/
-  | plainCompact
-  /-- `glwe_mul_plain_tmp_bytes`: `assert_eq!(b.base2k(), ab_base2k)` (plaintext of another radix) -/
-  | plainRadix
-  /-- `ckks_add_pt_const_znx_assign_unsafe`: `at_mut(0, limb)` with `limb ≥ dst.size()` -/
-  | cstLimbs
-  /-- `glwe_encrypt_zero_sk` → `vec_znx_add_normal`: `at_mut(col, limb)` with noise limb ≥ size -/
-  | encLimb
+  /-- `poulpy-core/src/operations/glwe.rs::effective_limbs` (reached from `glwe_tensor_apply`,
+  `glwe_tensor_square_apply`, `glwe_mul_plain[_assign]`): `effective_k` needs more limbs than the
+  operand has — only possible for a ciphertext whose metadata do not fit its storage -/
+  | effLimbsA
+  | effLimbsB
+  /-- an operand with `effective_k = 0` (a buffer that was never encrypted) narrows to zero limbs:
+  the FFT64 convolution then evaluates `size - 1` / asserts `a_size > 0` (NTT120 accepts it); the
+  model takes the conservative reading -/
+  | zeroLimbs
   /-- `ckks_compact_limbs_copy`: slice `[..dst_len]` longer than the source -/
   | copyBounds
   /-- an unchecked `usize` subtraction underflows (overflow-checks profile) -/
   | usizeSub
-  /-- `encode_*`: `size - 1` with `k = 0` -/
-  | encodeZero
 deriving Repr, DecidableEq
 
 def Panic.cls : Panic → String
-  | .tensorCompactA | .tensorCompactB | .squareCompact | .plainCompact | .plainRadix | .cstLimbs | .encLimb => "assert"
+  | .effLimbsA | .effLimbsB => "assert"
   | .copyBounds => "bounds"
-  | .usizeSub | .encodeZero => "overflow"
+  | .usizeSub | .zeroLimbs => "overflow"
 
 /-- result of one call: `ok`, `Err(e)` together with the state the failed call leaves behind, panic -/
 inductive Res (σ : Type) where
@@ -217,11 +212,11 @@ def addPtZnxInto (env : Env) (dst a : Ct) (pt : Pt) : Res Ct :=
 def addPtZnxAssign (env : Env) (dst : Ct) (pt : Pt) : Res Ct := ptAlign env dst pt
 
 /-- building a ZNX plaintext operand: `CKKSPlaintextVecZnx::alloc(n, base2k, meta)` followed by
-`CKKSPlaintextVecRnx::to_znx` (`ensure!(log_delta <= max_log_delta_prec())`; zero precision makes
-`encode_vec_*` evaluate `size - 1` with `size = 0`).  `none` = built. -/
+`CKKSPlaintextVecRnx::to_znx` (`ensure!(log_delta <= max_log_delta_prec())`,
+`ensure!(other.size() > 0)`).  `none` = built. -/
 def ptBuild (env : Env) (pt : Pt) (dst : Ct) : Option (Res Ct) :=
   if pt.md.logDelta > env.maxLogDeltaPrec then some (.err .other dst)
-  else if pt.md.effK = 0 then some (.panic .encodeZero)
+  else if pt.md.effK = 0 then some (.err .other dst)
   else none
 
 /-- run `f` once the plaintext operand has been built -/
@@ -231,11 +226,11 @@ def withPt (env : Env) (pt : Pt) (dst : Ct) (f : Res Ct) : Res Ct :=
   | none => f
 
 /-- `CKKSPlaintextVecRnx::to_znx` into a scratch plaintext of meta `prec` and the ciphertext radix:
-`none` = conversion fine; the error is the `ensure!(log_delta <= max_log_delta_prec())`; zero
-precision makes `encode_vec_*` evaluate `size - 1` with `size = 0`. -/
+`none` = conversion fine; the errors are `ensure!(log_delta <= max_log_delta_prec())` and
+`ensure!(other.size() > 0)` (zero precision), both plain `anyhow` errors. -/
 def rnxToZnx (env : Env) (prec : Meta) (dst : Ct) : Option (Res Ct) :=
   if prec.logDelta > env.maxLogDeltaPrec then some (.err .other dst)
-  else if prec.minK env.base2k = 0 then some (.panic .encodeZero)
+  else if prec.minK env.base2k = 0 then some (.err .other dst)
   else none
 
 def addPtRnxInto (env : Env) (dst a : Ct) (prec : Meta) : Res Ct :=
@@ -253,13 +248,12 @@ def cstAssign (_env : Env) (dst : Ct) (cst : Cst) : Res Ct :=
   if !cst.re && !cst.im then .ok dst
   else if dst.md.logBudget + cst.md.logDelta < cst.md.effK then
     .err (.alignment dst.md.logBudget cst.md.logDelta cst.md.effK) dst
-  else if cst.limbs > dst.size then .panic .cstLimbs
-  else .ok dst
+  else .ok dst      -- only the leading `dst.size()` digits of the constant are injected
 
 /-- `CKKSPlaintextCstRnx::to_znx_at_k(base2k, k, log_delta)`: `.inl` = the constant, `.inr` = the failure -/
 def toZnxAtK (env : Env) (k ld : Nat) (re im : Bool) (dst : Ct) : Sum Cst (Res Ct) :=
   if ld > env.maxLogDeltaPrec then .inr (.err .other dst)
-  else if (re || im) && k = 0 then .inr (.panic .encodeZero)
+  else if (re || im) && k = 0 then .inr (.err .other dst)
   else .inl ⟨⟨ld, k - ld⟩, divCeil k env.base2k, re, im⟩
 
 def addCstZnxInto (env : Env) (dst a : Ct) (cst : Cst) : Res Ct :=
@@ -325,9 +319,13 @@ def rescaleAssign (_env : Env) (ct : Ct) (k : Nat) : Res Ct :=
   if k ≤ ct.md.logBudget then .ok { ct with md := ⟨ct.md.logDelta, ct.md.logBudget - k⟩ }
   else .err (.insufficient ct.md.logBudget k) ct
 
-/-- `ckks_rescale_into`: **no offset handling** — the destination's `max_k` is never consulted -/
-def rescaleInto (_env : Env) (dst : Ct) (k : Nat) (src : Ct) : Res Ct :=
-  if k ≤ src.md.logBudget then .ok { dst with md := ⟨src.md.logDelta, src.md.logBudget - k⟩ }
+/-- `ckks_rescale_into`: rescale by `k`, then pay what does not fit the destination from the budget -/
+def rescaleInto (env : Env) (dst : Ct) (k : Nat) (src : Ct) : Res Ct :=
+  if k ≤ src.md.logBudget then
+    let lb := src.md.logBudget - k
+    let off := (src.md.logDelta + lb) - dst.maxK env
+    if off ≤ lb then .ok { dst with md := ⟨src.md.logDelta, lb - off⟩ }
+    else .err (.insufficient lb off) dst
   else .err (.insufficient src.md.logBudget k) dst
 
 /-! ## multiplication -/
@@ -346,7 +344,8 @@ def mulCtParams (env : Env) (res a b : Ct) : Except Err MulP :=
     let rlb0 := mb - md
     let rld := min a.md.logDelta b.md.logDelta
     let ro := (rlb0 + rld) - res.maxK env
-    if ro ≤ rlb0 then .ok ⟨rlb0 - ro, rld, max a.md.effK b.md.effK + ro⟩
+    if ro ≤ rlb0 then
+      .ok ⟨rlb0 - ro, rld, max a.md.logBudget b.md.logBudget + max a.md.logDelta b.md.logDelta + ro⟩
     else .error (.insufficient rlb0 ro)
   else .error (.mulUnderflow a.md.logBudget b.md.logBudget a.md.logDelta b.md.logDelta)
 
@@ -363,25 +362,32 @@ def mulPtParams (env : Env) (res a : Ct) (p : Meta) (cnvBase : Nat) : Except Err
 /-- `cnv_offset_hi` of the core multiplications -/
 def cnvHi (b cnv : Nat) : Nat := if cnv < b then 0 else cnv / b - 1
 
-/-- entry assertions + `a.size() + b.size() - cnv_offset_hi` of `glwe_tensor_apply` -/
+/-- `effective_limbs`: number of leading limbs that cover `effective_k` bits -/
+def effLimbs (env : Env) (c : Ct) : Nat := divCeil c.md.effK env.base2k
+
+/-- `glwe_tensor_apply`: `effective_limbs` of both operands (assertion `limbs ≤ size`) and
+`a_size + b_size - cnv_offset_hi` on the narrowed sizes -/
 def tensorCheck (env : Env) (a b : Ct) (cnv : Nat) : Option Panic :=
-  if divCeil a.md.effK env.base2k ≠ a.size then some .tensorCompactA
-  else if divCeil b.md.effK env.base2k ≠ b.size then some .tensorCompactB
-  else if cnvHi env.base2k cnv > a.size + b.size then some .usizeSub
+  if effLimbs env a > a.size then some .effLimbsA
+  else if effLimbs env b > b.size then some .effLimbsB
+  else if effLimbs env a = 0 ∨ effLimbs env b = 0 then some .zeroLimbs
+  else if cnvHi env.base2k cnv > effLimbs env a + effLimbs env b then some .usizeSub
   else none
 
-/-- `glwe_tensor_square_apply`: assertion + `2 * a.size() - cnv_offset_hi` -/
+/-- `glwe_tensor_square_apply`: the same with `2 * a_size - cnv_offset_hi` -/
 def squareCheck (env : Env) (a : Ct) (cnv : Nat) : Option Panic :=
-  if divCeil a.md.effK env.base2k ≠ a.size then some .squareCompact
-  else if cnvHi env.base2k cnv > 2 * a.size then some .usizeSub
+  if effLimbs env a > a.size then some .effLimbsA
+  else if effLimbs env a = 0 then some .zeroLimbs
+  else if cnvHi env.base2k cnv > 2 * effLimbs env a then some .usizeSub
   else none
 
-/-- `glwe_mul_plain[_assign]` with ciphertext operand `a` and plaintext `pt` -/
+/-- `glwe_mul_plain[_assign]` with ciphertext operand `a` and a plaintext `pt` of the same radix
+(`b_effective_k = pt.max_k`) -/
 def plainCheck (env : Env) (a : Ct) (pt : Pt) (cnv : Nat) : Option Panic :=
-  if pt.base2k ≠ env.base2k then some .plainRadix
-  else if divCeil a.md.effK env.base2k ≠ a.size then some .plainCompact
-  else if divCeil pt.maxK env.base2k ≠ pt.size then some .plainCompact
-  else if cnvHi env.base2k cnv > a.size + pt.size then some .usizeSub
+  if effLimbs env a > a.size then some .effLimbsA
+  else if divCeil pt.maxK env.base2k > pt.size then some .effLimbsB
+  else if effLimbs env a = 0 then some .zeroLimbs
+  else if cnvHi env.base2k cnv > effLimbs env a + divCeil pt.maxK env.base2k then some .usizeSub
   else none
 
 /-- `glwe_mul_const`: `a.size() + b.len() - cnv_offset_hi` (no compactness assertion) -/
@@ -407,9 +413,11 @@ def squareInto (env : Env) (dst a : Ct) : Res Ct :=
 
 /-- `ckks_mul_pt_vec_znx_into` (`…_assign dst pt` is `mulPtZnxInto env dst dst pt`) -/
 def mulPtZnxInto (env : Env) (dst a : Ct) (pt : Pt) : Res Ct :=
-  match mulPtParams env dst a pt.md pt.maxK with
-  | .error e => .err e dst
-  | .ok p => finishMul dst p (plainCheck env a pt p.cnv)
+  if env.base2k ≠ pt.base2k then .err (.base2kMismatch env.base2k pt.base2k) dst
+  else
+    match mulPtParams env dst a pt.md pt.maxK with
+    | .error e => .err e dst
+    | .ok p => finishMul dst p (plainCheck env a pt p.cnv)
 
 def mulPtRnxInto (env : Env) (dst a : Ct) (prec : Meta) : Res Ct :=
   match rnxToZnx env prec dst with
@@ -468,12 +476,12 @@ def compactCopy (env : Env) (_dst a : Ct) : Res Ct :=
   if divCeil a.md.effK env.base2k > a.size then .panic .copyBounds
   else .ok ⟨a.md, divCeil a.md.effK env.base2k⟩
 
-/-- `ckks_encrypt_sk` with `enc_infos.noise_infos().k = k` -/
+/-- `ckks_encrypt_sk` with `enc_infos.noise_infos().k = k`: `ensure!(k > 0)`, budget, `set_meta_checked`
+(the noise position must lie inside the buffer), zero encryption, plaintext added -/
 def encrypt (env : Env) (ct : Ct) (k : Nat) (pt : Pt) : Res Ct :=
-  if k = 0 then .panic .usizeSub
-  else if divCeil k env.base2k > ct.size then .panic .encLimb
+  if k = 0 then .err .other ct
   else if pt.md.logDelta ≤ k then
-    ptAlign env { ct with md := ⟨pt.md.logDelta, k - pt.md.logDelta⟩ } pt
+    (setMeta env ct ⟨pt.md.logDelta, k - pt.md.logDelta⟩).bind (fun c => ptAlign env c pt)
   else .err (.insufficient k pt.md.logDelta) ct
 
 /-- `ckks_decrypt` into a plaintext allocated with `pt` (state unchanged) -/
